@@ -30,7 +30,7 @@ from .. import sym
 LEVEL = 'other'
 UNITS = ['src/transform/estimation/FindRigidTransformationBySVD.cpp', 'src/pointset/algorithms/PreconditionedPointSet.cpp']
 ENGINES = 'E-STATE + E-SIB + E-WIT over romea-facts'
-TECHNIQUE = 'noalias stores on overlapping block regions, scaling argument of Eigen::umeyama, guards on the rotation store (tolerance tests on singular values), in-place scalings of the covariance by quantities that are not positive for every input, accumulation loops stepped on witness list sizes (every correspondence reaches the sums), tail from the result declaration read with symbolic SVD factors and means whose homogeneous coordinate is symbolic, returns in front of the accumulation loops (pairing bypass, constant result on the counts of the quantifier), sweep of every function read (and its in-repo callees) for frozen function-local statics, single precision inside double computations, lossy copy constructors, presence- or argument-keyed member caches, reference members bound to constructor arguments, loop accumulators that are members, members derived in the constructor and not refreshed by setters, results returned by reference to a member buffer, members filled from an argument under a condition that ignores it, hidden non-virtual base members, self-bound reference members, reductions that accumulate in float; closed-form tail read symbolically with the covariance as input on witness angles, early returns under tolerance tests; canonical (set, index-role) resolution of every point access in the mean/covariance loops (index- and range-for forms), path-wise size of the preconditioned set after allocate_ on witness sizes; def-use / must-pass-through on the instantiated AST (determinant correction reaches the stored rotation), structural pairing of covariance orientation with SVD factor order, sibling agreement of overloads'
+TECHNIQUE = 'any spelling of the reflection test evaluated on determinants of both scalar types, weighted sums divided by the sum of the weights, noalias stores on overlapping block regions, scaling argument of Eigen::umeyama, guards on the rotation store (tolerance tests on singular values), in-place scalings of the covariance by quantities that are not positive for every input, accumulation loops stepped on witness list sizes (every correspondence reaches the sums), tail from the result declaration read with symbolic SVD factors and means whose homogeneous coordinate is symbolic, returns in front of the accumulation loops (pairing bypass, constant result on the counts of the quantifier), sweep of every function read (and its in-repo callees) for frozen function-local statics, single precision inside double computations, lossy copy constructors, presence- or argument-keyed member caches, reference members bound to constructor arguments, loop accumulators that are members, members derived in the constructor and not refreshed by setters, results returned by reference to a member buffer, members filled from an argument under a condition that ignores it, hidden non-virtual base members, self-bound reference members, reductions that accumulate in float; closed-form tail read symbolically with the covariance as input on witness angles, early returns under tolerance tests; canonical (set, index-role) resolution of every point access in the mean/covariance loops (index- and range-for forms), path-wise size of the preconditioned set after allocate_ on witness sizes; def-use / must-pass-through on the instantiated AST (determinant correction reaches the stored rotation), structural pairing of covariance orientation with SVD factor order, sibling agreement of overloads'
 EXPLANATION = ('Each estimate_/find overload of each of the eight instantiations is read as an ordered list of normalised statements; rules check the determinant '
                'correction idiom before the rotation store (last column, sign test), centroid map, covariance/factor pairing, preconditioning rescale and overload agreement.')
 ASSUMPTIONS = ['Eigen::JacobiSVD returns singular values in descending order (the zero one of a coplanar set is last)',
